@@ -290,7 +290,6 @@ class ManifestContext:
         assert video is not None
         if timing:
             opts.availabilityStartTime = timing.availabilityStartTime
-            opts.timeShiftBufferDepth = timing.timeShiftBufferDepth
             self.update_timing(timing)
 
         self.cgi_params = self.calculate_cgi_parameters(
@@ -505,13 +504,19 @@ class ManifestContext:
             exclude=exclude.union({'timeline', 'patch'}))
         clk_cgi_params = options.generate_cgi_parameters(
             use=OptionUsage.TIME, exclude=exclude)
+        # the window this manifest lists: the requested depth clamped to the
+        # age of the stream (live), no window for static manifests
+        depth = 0
+        if options.mode == 'live':
+            depth = getattr(
+                self, 'timeShiftBufferDepth', options.timeShiftBufferDepth)
 
         if options.videoErrors:
             times = self.calculate_injected_error_segments(
                 options.videoErrors,
                 self.now,
                 options.availabilityStartTime,
-                options.timeShiftBufferDepth,
+                depth,
                 video.representations[0])
             vid_cgi_params['verr'] = times
 
@@ -521,7 +526,7 @@ class ManifestContext:
                     options.audioErrors,
                     self.now,
                     options.availabilityStartTime,
-                    options.timeShiftBufferDepth,
+                    depth,
                     audio[0].representations[0])
                 aud_cgi_params['aerr'] = times
 
@@ -531,7 +536,7 @@ class ManifestContext:
                 errs,
                 self.now,
                 options.availabilityStartTime,
-                options.timeShiftBufferDepth,
+                depth,
                 video.representations[0])
             vid_cgi_params['vcorrupt'] = segs
 
